@@ -123,8 +123,17 @@ def analyse(ctx, rng, o):
             kw['fft'] = False
         ctx.cell('source', source)
         try:
-            if rng.random() < 0.2:
+            route = rng.random()
+            ctx.cell('route', 'gm' if route < 0.15 else 'vectorised' if route < 0.25 else 'CObs' if route < 0.32 else 'Corr' if route < 0.38 else 'method')
+            if route < 0.15:
                 o.gm(**kw)
+            elif route < 0.25:
+                # the module-level vectorised entry points
+                (PE.gamma_method if rng.random() < 0.5 else PE.gm)([o] if rng.random() < 0.5 else np.array([o]), **kw)
+            elif route < 0.32:
+                PE.CObs(o, 0.5 * o).gamma_method(**kw)
+            elif route < 0.38:
+                PE.Corr([o, 2.0 * o]).gamma_method(**kw)
             else:
                 o.gamma_method(**kw)
         except ValueError as e:
